@@ -19,6 +19,7 @@ type c13Prog struct {
 	Sizes     []int    `json:"sizes"`
 	Ranges    []string `json:"ranges"`
 	Versioned bool     `json:"versioned,omitempty"`
+	Old       bool     `json:"old,omitempty"` // replay: the ranges are asked of the version that an overwrite made non-current
 }
 
 type c13 struct{ baseCheck }
@@ -28,7 +29,7 @@ func init() { core.Register(c13{}) }
 func (c13) ID() string    { return "C13" }
 func (c13) Level() string { return "exploration" }
 func (c13) Rule() string {
-	return "objects of size {0,1,2,10,4096,100000,seeded}; Range header strings from a grammar (a-b, a-, -n, multi-range, reversed, first position at/after the end, 2^63 and beyond, other units, whitespace, empty, garbage) sent through GET (also with versionId) to any of 1-3 instances, the response written through the simulated connection in steps; oracle: status / Content-Range / Content-Length / body describe the same interval of the model's bytes, and the classification of the statement (well-formed a-b or a- inside the object => 206 with exactly [a, min(b,size-1)]; first position beyond the end => 416; -n => 206 with the last n bytes or 200 whole; absent / malformed / multi / other unit / reversed => 200 whole); distinct = (size class, range form class, outcome)"
+	return "objects of size {0,1,2,10,4096,100000,seeded}; Range header strings from a grammar (a-b, a-, -n, multi-range, reversed, first position at/after the end, 2^63 and beyond, other units, whitespace, empty, garbage) sent through GET (also with versionId: of the current version and, after an overwrite of another size, of the version that became non-current) to any of 1-3 instances, the response written through the simulated connection in steps; oracle: status / Content-Range / Content-Length / body describe the same interval of the model's bytes, and the classification of the statement (well-formed a-b or a- inside the object => 206 with exactly [a, min(b,size-1)]; first position beyond the end => 416; -n => 206 with the last n bytes or 200 whole; absent / malformed / multi / other unit / reversed => 200 whole); distinct = (size class, range form class, outcome)"
 }
 func (c13) Runs(tier string) int {
 	if tier == "thorough" {
@@ -179,148 +180,174 @@ func (c13) Exec(c *core.Case) (out *core.Outcome) {
 		pr := root.Do(s3c.PutObject(bkt, key, data))
 		mustOK(pr, "put object")
 		vid := pr.Resp.Get("X-Amz-Version-Id")
-		ranges := p.Ranges
-		if ranges == nil {
-			for i := 0; i < 40; i++ {
-				ranges = append(ranges, c13GenRange(r, size))
-			}
-		}
-		for _, rg := range ranges {
-			rq := s3c.GetObject(bkt, key)
-			if rg != "" || r.IntN(2) == 0 {
-				rq.Headers = append(rq.Headers, KV{K: "Range", V: rg})
-			}
-			if p.Versioned && vid != "" && r.IntN(2) == 0 {
-				rq.Query = append(rq.Query, KV{K: "versionId", V: vid})
-			}
-			cl := e.Root()
-			res := cl.Do(rq)
-			o.Evals++
-			// HTTP strips optional whitespace around a field value
-			sent := rg
-			rg = strings.Trim(rg, " \t")
-			form := rangeFormClass(rg)
-			_ = sent
-			desc := fmt.Sprintf("GET object of %d bytes with Range %q -> %d, Content-Range %q, Content-Length %q, %d body bytes", size, rg, res.Resp.Status, res.Resp.Get("Content-Range"), res.Resp.Get("Content-Length"), len(res.Resp.Body))
-			q := c13Prog{Sizes: []int{psize}, Ranges: []string{rg}, Versioned: p.Versioned}
-			viol := func(kind, format string, a ...any) {
-				o.Violate("range", fmt.Sprintf("C13/%s/%s", form, kind), "%s: "+format, append([]any{desc}, a...)...)
-				o.SetReplayP(q)
-			}
-			st := res.Resp.Status
-			o.AddClass("%s|%s|%d", sizeClass(size), form, st)
-			if res.Resp.ParseErr != "" {
-				viol("malformed-response", "response not well-formed: %s", res.Resp.ParseErr)
-				continue
-			}
-			// (1) self-consistency
-			switch st {
-			case 200:
-				if !bytes.Equal(res.Resp.Body, data) {
-					viol("200-not-whole-object", "a 200 answer must carry the entire object%s", firstDiff(res.Resp.Body, data))
-				}
-				if res.Resp.Get("Content-Range") != "" {
-					viol("200-with-content-range", "a 200 answer carries a Content-Range")
-				}
-			case 206:
-				cr := res.Resp.Get("Content-Range")
-				m := regexp.MustCompile(`^bytes (\d+)-(\d+)/(\d+)$`).FindStringSubmatch(cr)
-				if m == nil {
-					viol("206-without-content-range", "a 206 answer needs a Content-Range describing its body")
+		for phase := 0; phase < 2; phase++ {
+			rr := r
+			if phase == 1 {
+				// the same object once an overwrite of another size has made it a non-current version: every
+				// answer must still describe the bytes of the version that is named, not the current one
+				if !p.Versioned || vid == "" || psize < 0 || (p.Ranges != nil && !p.Old) {
 					break
 				}
-				a, _ := strconv.Atoi(m[1])
-				b, _ := strconv.Atoi(m[2])
-				tot, _ := strconv.Atoi(m[3])
-				if tot != size || a > b || b >= size {
-					viol("206-content-range-outside-object", "Content-Range does not lie inside the object")
-					break
+				other := size/3 + 1
+				if size < 10 {
+					other = size*7 + 13
 				}
-				if !bytes.Equal(res.Resp.Body, data[a:b+1]) {
-					viol("206-body-disagrees-with-content-range", "body is not bytes %d..%d of the object", a, b)
-				}
-				if res.Resp.Get("Content-Length") != fmt.Sprint(b-a+1) {
-					viol("206-length-disagrees", "Content-Length is not %d", b-a+1)
-				}
-			case 416:
-			default:
-				if st >= 500 || st == 0 {
-					viol("server-error", "unexpected status")
-				}
-			}
-			// (2) classification from the statement
-			if len(o.Violations) > 0 {
+				mustOK(root.Do(s3c.PutObject(bkt, key, s3c.GenData(uint64(2000+si), other))), "overwrite object")
+				rr = sim.Rng(c.Seed, fmt.Sprintf("noncurrent%d", si))
+				o.Probe("noncurrent_version_phase")
+			} else if p.Ranges != nil && p.Old {
 				continue
 			}
-			if strings.Contains(rg, "+") {
-				continue // a signed number: whether that is "malformed" is not settled by the statement
+			ranges := p.Ranges
+			if ranges == nil {
+				nr := 40
+				if phase == 1 {
+					nr = 16
+				}
+				for i := 0; i < nr; i++ {
+					ranges = append(ranges, c13GenRange(rr, size))
+				}
 			}
-			if m := rangeAB.FindStringSubmatch(rg); m != nil {
-				a, errA := strconv.ParseInt(m[1], 10, 64)
-				bEnd := int64(size) - 1
-				okB := true
-				if m[2] != "" {
-					b, errB := strconv.ParseInt(m[2], 10, 64)
-					if errB != nil {
-						okB = false // beyond int64: huge numbers, unjudged beyond self-consistency
-					} else {
-						if b < a {
-							// reversed: entire object
-							if st != 200 {
-								viol("reversed-not-200", "a reversed range is malformed: 200 with the entire object is required")
+			for _, rg := range ranges {
+				rq := s3c.GetObject(bkt, key)
+				if rg != "" || rr.IntN(2) == 0 {
+					rq.Headers = append(rq.Headers, KV{K: "Range", V: rg})
+				}
+				if p.Versioned && vid != "" && (phase == 1 || rr.IntN(2) == 0) {
+					rq.Query = append(rq.Query, KV{K: "versionId", V: vid})
+				}
+				cl := e.Root()
+				res := cl.Do(rq)
+				o.Evals++
+				// HTTP strips optional whitespace around a field value
+				sent := rg
+				rg = strings.Trim(rg, " \t")
+				form := rangeFormClass(rg)
+				_ = sent
+				desc := fmt.Sprintf("GET object of %d bytes with Range %q -> %d, Content-Range %q, Content-Length %q, %d body bytes", size, rg, res.Resp.Status, res.Resp.Get("Content-Range"), res.Resp.Get("Content-Length"), len(res.Resp.Body))
+				if phase == 1 {
+					desc = "non-current version after an overwrite of another size: " + desc
+				}
+				q := c13Prog{Sizes: []int{psize}, Ranges: []string{rg}, Versioned: p.Versioned, Old: phase == 1}
+				viol := func(kind, format string, a ...any) {
+					o.Violate("range", fmt.Sprintf("C13/%s/%s", form, kind), "%s: "+format, append([]any{desc}, a...)...)
+					o.SetReplayP(q)
+				}
+				st := res.Resp.Status
+				o.AddClass("%s|%s|%d", sizeClass(size), form, st)
+				if res.Resp.ParseErr != "" {
+					viol("malformed-response", "response not well-formed: %s", res.Resp.ParseErr)
+					continue
+				}
+				// (1) self-consistency
+				switch st {
+				case 200:
+					if !bytes.Equal(res.Resp.Body, data) {
+						viol("200-not-whole-object", "a 200 answer must carry the entire object%s", firstDiff(res.Resp.Body, data))
+					}
+					if res.Resp.Get("Content-Range") != "" {
+						viol("200-with-content-range", "a 200 answer carries a Content-Range")
+					}
+				case 206:
+					cr := res.Resp.Get("Content-Range")
+					m := regexp.MustCompile(`^bytes (\d+)-(\d+)/(\d+)$`).FindStringSubmatch(cr)
+					if m == nil {
+						viol("206-without-content-range", "a 206 answer needs a Content-Range describing its body")
+						break
+					}
+					a, _ := strconv.Atoi(m[1])
+					b, _ := strconv.Atoi(m[2])
+					tot, _ := strconv.Atoi(m[3])
+					if tot != size || a > b || b >= size {
+						viol("206-content-range-outside-object", "Content-Range does not lie inside the object")
+						break
+					}
+					if !bytes.Equal(res.Resp.Body, data[a:b+1]) {
+						viol("206-body-disagrees-with-content-range", "body is not bytes %d..%d of the object", a, b)
+					}
+					if res.Resp.Get("Content-Length") != fmt.Sprint(b-a+1) {
+						viol("206-length-disagrees", "Content-Length is not %d", b-a+1)
+					}
+				case 416:
+				default:
+					if st >= 500 || st == 0 {
+						viol("server-error", "unexpected status")
+					}
+				}
+				// (2) classification from the statement
+				if len(o.Violations) > 0 {
+					continue
+				}
+				if strings.Contains(rg, "+") {
+					continue // a signed number: whether that is "malformed" is not settled by the statement
+				}
+				if m := rangeAB.FindStringSubmatch(rg); m != nil {
+					a, errA := strconv.ParseInt(m[1], 10, 64)
+					bEnd := int64(size) - 1
+					okB := true
+					if m[2] != "" {
+						b, errB := strconv.ParseInt(m[2], 10, 64)
+						if errB != nil {
+							okB = false // beyond int64: huge numbers, unjudged beyond self-consistency
+						} else {
+							if b < a {
+								// reversed: entire object
+								if st != 200 {
+									viol("reversed-not-200", "a reversed range is malformed: 200 with the entire object is required")
+								}
+								continue
 							}
-							continue
-						}
-						if b < bEnd {
-							bEnd = b
+							if b < bEnd {
+								bEnd = b
+							}
 						}
 					}
-				}
-				if errA != nil || !okB {
-					continue
-				}
-				if a >= int64(size) {
-					if st != 416 {
-						viol("beyond-end-not-416", "the first position lies beyond the end: 416 is required")
-					}
-					continue
-				}
-				if st != 206 {
-					viol("satisfiable-not-206", "a satisfiable range must be answered 206")
-					continue
-				}
-				want := fmt.Sprintf("bytes %d-%d/%d", a, bEnd, size)
-				if res.Resp.Get("Content-Range") != want {
-					viol("wrong-interval", "the requested interval clipped to the object is %q", want)
-				}
-				continue
-			}
-			if m := rangeSuffix.FindStringSubmatch(rg); m != nil {
-				n, err := strconv.ParseInt(m[1], 10, 64)
-				if err != nil {
-					continue
-				}
-				if st == 206 {
-					if n == 0 || size == 0 {
-						viol("suffix-zero-206", "a zero-length suffix cannot be a 206 with a body")
+					if errA != nil || !okB {
 						continue
 					}
-					a := int64(size) - n
-					if a < 0 {
-						a = 0
+					if a >= int64(size) {
+						if st != 416 {
+							viol("beyond-end-not-416", "the first position lies beyond the end: 416 is required")
+						}
+						continue
 					}
-					want := fmt.Sprintf("bytes %d-%d/%d", a, size-1, size)
+					if st != 206 {
+						viol("satisfiable-not-206", "a satisfiable range must be answered 206")
+						continue
+					}
+					want := fmt.Sprintf("bytes %d-%d/%d", a, bEnd, size)
 					if res.Resp.Get("Content-Range") != want {
-						viol("wrong-suffix-interval", "the last %d bytes are %q", n, want)
+						viol("wrong-interval", "the requested interval clipped to the object is %q", want)
 					}
-				} else if st != 200 && st != 416 {
-					viol("suffix-status", "a suffix range is answered 206 (last n bytes) or 200 (entire object)")
+					continue
 				}
-				continue
-			}
-			// absent / malformed / multi / other unit: 200 whole object
-			if st != 200 {
-				viol("ignored-form-not-200", "an absent, malformed, multi-range or other-unit Range must be answered 200 with the entire object")
+				if m := rangeSuffix.FindStringSubmatch(rg); m != nil {
+					n, err := strconv.ParseInt(m[1], 10, 64)
+					if err != nil {
+						continue
+					}
+					if st == 206 {
+						if n == 0 || size == 0 {
+							viol("suffix-zero-206", "a zero-length suffix cannot be a 206 with a body")
+							continue
+						}
+						a := int64(size) - n
+						if a < 0 {
+							a = 0
+						}
+						want := fmt.Sprintf("bytes %d-%d/%d", a, size-1, size)
+						if res.Resp.Get("Content-Range") != want {
+							viol("wrong-suffix-interval", "the last %d bytes are %q", n, want)
+						}
+					} else if st != 200 && st != 416 {
+						viol("suffix-status", "a suffix range is answered 206 (last n bytes) or 200 (entire object)")
+					}
+					continue
+				}
+				// absent / malformed / multi / other unit: 200 whole object
+				if st != 200 {
+					viol("ignored-form-not-200", "an absent, malformed, multi-range or other-unit Range must be answered 200 with the entire object")
+				}
 			}
 		}
 		if len(o.Violations) > 6 {
